@@ -248,3 +248,72 @@ fn get_metrics(status: Option<TransformStatus>, file: &str) -> Option<Metrics> {
     }
     None
 }
+
+/// Verification hooks (off unless `--cfg datadog_dd_native_iast_rewriter_js_verif`): the bodies of
+/// `Rewriter::new` and `Rewriter::rewrite` without the `JsValue` conversions, which only exist on wasm.
+#[cfg(datadog_dd_native_iast_rewriter_js_verif)]
+pub mod verif {
+    use super::*;
+
+    pub struct VerifRawOutput {
+        pub code: String,
+        pub source_map: String,
+        pub has_original_source_map: bool,
+        pub source_map_comment: Option<String>,
+        pub status: Option<String>,
+    }
+
+    /// Same as `Rewriter::new`: an undeserialisable config falls back to `RewriterConfig::default()`.
+    pub fn config_from<'de, D: serde::Deserializer<'de>>(deserializer: D) -> Config {
+        let rewriter_config = RewriterConfig::deserialize(deserializer);
+        rewriter_config
+            .unwrap_or(RewriterConfig::default())
+            .to_config()
+    }
+
+    /// Same as `Rewriter::rewrite` up to the conversion of `Result` into a `JsValue`.
+    pub fn rewrite<R: Read>(
+        config: &Config,
+        code: String,
+        file: String,
+        file_reader: &impl FileReader<R>,
+    ) -> std::result::Result<(Result, VerifRawOutput), String> {
+        rewrite_js(code, &file, config, file_reader)
+            .map(|result| {
+                let raw = VerifRawOutput {
+                    code: result.code.clone(),
+                    source_map: result.source_map.clone(),
+                    has_original_source_map: result.original_source_map.source.is_some(),
+                    source_map_comment: result.original_source_map.source_map_comment.clone(),
+                    status: result
+                        .transform_status
+                        .as_ref()
+                        .map(|s| s.status.to_string()),
+                };
+                (
+                    Result {
+                        content: print_js(
+                            &result.code,
+                            &result.source_map,
+                            &result.original_source_map,
+                            config,
+                        )
+                        .into_owned(),
+                        metrics: get_metrics(result.transform_status, &file),
+                        literals_result: result.literals_result,
+                    },
+                    raw,
+                )
+            })
+            .map_err(|e| format!("{e}"))
+    }
+
+    pub fn csi_methods(config: &Config) -> Vec<String> {
+        config
+            .csi_methods
+            .methods
+            .iter()
+            .map(|csi_method| csi_method.dst.clone())
+            .collect::<Vec<String>>()
+    }
+}
